@@ -36,6 +36,46 @@ fn main() {
             let only = args.iter().position(|a| a == "--only").and_then(|i| args.get(i + 1)).map(|s| s.as_str());
             engine::run_property(&props, &args[1], tier, emit, only)
         }
+        Some("fuzz-smoke") if args.len() >= 4 => {
+            // pgcheck fuzz-smoke <Cxx> <sub> <count>: the libFuzzer entry point driven by plain pseudo-random
+            // byte strings (no instrumentation): checks that the decoder + domain function only produce legal cases
+            let count = args[3].parse::<u64>().unwrap_or(100_000);
+            let Some(sc) = props.iter().find(|p| p.id == args[1]).and_then(|p| p.subs.iter().find(|s| s.name() == args[2])) else { return std::process::exit(2) };
+            let mut x: u64 = 0x9E3779B97F4A7C15;
+            let mut next = move || {
+                x ^= x << 13;
+                x ^= x >> 7;
+                x ^= x << 17;
+                x
+            };
+            let mut bad = 0;
+            for i in 0..count {
+                let len = (next() % 700) as usize;
+                let small = next() % 3 == 0;
+                let data: Vec<u8> = (0..len).map(|_| { let v = next(); if small && v % 4 != 0 { (v >> 8) as u8 % 24 } else { (v >> 8) as u8 } }).collect();
+                if let Some((f, case)) = sc.run_from_bytes(&data) {
+                    bad += 1;
+                    if bad <= 3 {
+                        eprintln!("input {i}: {}: {}\n  case {}", f.sig, f.msg, case.to_string().chars().take(600).collect::<String>());
+                    }
+                }
+            }
+            eprintln!("{count} inputs, {bad} failing");
+            if bad == 0 { 0 } else { 1 }
+        }
+        Some("fuzz-seeds") if args.len() >= 5 => {
+            // pgcheck fuzz-seeds <dir> <Cxx> <sub> <count>: cases from the proptest strategy, encoded for the `ops` target
+            let count = args[4].parse::<usize>().unwrap_or(64);
+            let seed = std::env::var("VERIF_SEED").ok().and_then(|s| s.parse::<u64>().ok()).unwrap_or(0);
+            match props.iter().find(|p| p.id == args[2]).and_then(|p| p.subs.iter().find(|s| s.name() == args[3])) {
+                Some(sc) => {
+                    let n = sc.seed_corpus(Path::new(&args[1]), count, seed);
+                    eprintln!("{n} seed cases written to {}", args[1]);
+                    if n > 0 { 0 } else { 2 }
+                }
+                None => 2,
+            }
+        }
         Some("fuzz-seeds") if args.len() >= 2 => {
             props::c17::write_seed_corpus(Path::new(&args[1]));
             0
